@@ -333,7 +333,7 @@ def run(ctx, scratch):
                     else:
                         labels = [rng.randrange(ch) for _ in range(ns)]
                     loss_cases.append(dict(name=name, signal=signal, labels=labels))
-        # the finite-difference reproducer of DESIGN.md D18 (3 classes, labels 0, 1, 2)
+        # the finite-difference reproducer of DESIGN.md D18 (3 classes, labels 0, 1, 2; repaired by 018b4674)
         loss_cases.append(dict(name='BinaryCrossEntropy', signal=[[0.1, -0.2, 0.3], [0.5, 0.2, -0.1], [0.0, 0.4, 0.2]],
                                labels=[0, 1, 2]))
         loss_res = []
@@ -379,35 +379,12 @@ def run(ctx, scratch):
             e = clist([('%s %s %d' % (fn, clist(p_, cq), y)) for p_, y in zip(r['ok']['probs'], g['labels'])])
             exprs.append('mout %s' % e)
             targets.append((g['name'] + '.loss_gradient', g, r['ok']['gradient'], dict(loss=g['name'])))
-            if g['name'] == 'BinaryCrossEntropy' and len(g['signal'][0]) >= 2:
-                # the repaired (one-hot) form of D18, Gnn.g_bce_gradient_onehot: accepted as an alternative so that the
-                # correspondence survives the fix; which form the code follows is recorded in the evidence
-                e = clist([('ce_gradient_o %s %d' % (clist(p_, cq), y)) for p_, y in zip(r['ok']['probs'], g['labels'])])
-                exprs.append('mout %s' % e)
-                targets.append(('alt', g, r['ok']['gradient'], dict(loss=g['name'])))
         vals = coq_eval('c19grad', IMPORTS, exprs, prelude=PRELUDE, shard=120)
-        bce_forms = {'label_value (as coded, D18)': 0, 'one_hot (repaired)': 0}
-        pending = None
         for (site, g, got, fields), v in zip(targets, vals):
-            if site == 'alt':
-                if pending is not None:
-                    if mat_close(got, to_float(v)):
-                        bce_forms['one_hot (repaired)'] += 1
-                    else:
-                        ctx.violation(*pending[0], **pending[1])
-                    pending = None
-                else:
-                    bce_forms['label_value (as coded, D18)'] += 1
-                continue
             ctx.count('formula:' + site, ('formula', site, g), True)
             if not mat_close(got, to_float(v)):
-                viol = ((site, 'implementation differs from the modelled closed form'),
-                        dict(case=g, expected=to_float(v), observed=got, kind='model', **fields))
-                if g['name'] == 'BinaryCrossEntropy' and len(g['signal'][0]) >= 2:
-                    pending = viol       # decided by the alternative form that follows
-                else:
-                    ctx.violation(*viol[0], **viol[1])
-        ctx.extra['bce_multi_gradient_form_matched'] = bce_forms
+                ctx.violation(site, 'implementation differs from the modelled closed form', case=g, expected=to_float(v),
+                              observed=got, kind='model', **fields)
 
         # ============================ (c) sampler ==================================================
         samp_cases = []
